@@ -103,6 +103,83 @@ def echoValue (env : Env) (t : Ty) (v : V) : R V := do
   let x ← sendParam env t v
   sendResult env t x
 
+/-! ### hint shapes: how `X | None` and `Annotated[X, …]` nest around the type
+
+The functions above take the hint already resolved to a `Ty`.  The code resolves it at every site by peeling one Optional and
+one Annotated layer, in a fixed order; a hint whose layers nest the other way round is not resolved and the value is returned
+as it came off the wire.  `Wrap` lists the layers of a hint outermost first; Python flattens directly nested `Annotated`, so two
+adjacent annotation layers never occur. -/
+
+inductive Wrap where
+  | opt          -- `… | None`
+  | annArrow     -- `Annotated[…, ArrowType(declared type)]`  (the declared type of the core annotation)
+  | annDoc       -- `Annotated[…, <other metadata>]`
+deriving DecidableEq, Repr, Inhabited
+
+/-- `_is_optional_type`: one layer -/
+def peelOpt : List Wrap → List Wrap × Bool
+  | .opt :: r => (r, true)
+  | ws => (ws, false)
+
+/-- `_unwrap_annotated`: one layer -/
+def peelAnn : List Wrap → List Wrap
+  | .annArrow :: r => r
+  | .annDoc :: r => r
+  | ws => ws
+
+/-- what is left of the hint when `_deserialize_value` starts testing it (`[]` = the bare type) -/
+def deserBase (ws : List Wrap) : List Wrap :=
+  if Gen.C02.deserializeOrder = "opt-then-ann" then peelAnn (peelOpt ws).1
+  else if Gen.C02.deserializeOrder = "ann-then-opt" then (peelOpt (peelAnn ws)).1
+  else ws
+
+/-- the Arrow type an `ArrowType(…)` marker of the generated services declares for core type `t` -/
+def declared : Ty → ATy
+  | .dc _ _ => .binary
+  | t => infer t
+
+/-- `_infer_arrow_type` on a wrapped hint: Optional layers are skipped, an `ArrowType` marker wins, other metadata is skipped -/
+def inferH : List Wrap → Ty → ATy
+  | [], t => infer t
+  | .opt :: r, t => inferH r t
+  | .annArrow :: _, t => declared t
+  | .annDoc :: r, t => inferH r t
+
+def isDc : Ty → Bool
+  | .dc _ _ => true
+  | _ => false
+
+/-- `_build_params_schema` / `_build_result_schema` (repaired tree) on a wrapped hint -/
+def arrowTopH (ws : List Wrap) (t : Ty) : ATy :=
+  let inner := (peelOpt ws).1
+  if peelAnn inner = [] && isDc t then .binary else inferH inner t
+
+/-- `_deserialize_value` on a wrapped hint: the branches only fire on the bare type -/
+def deserializeValueH (env : Env) (ws : List Wrap) (t : Ty) (v : V) : R V :=
+  if deserBase ws = [] then deserializeValue env t v else .ok v
+
+/-- one hop of a value whose hint is `ws` around the (Optional-free) core type `t` -/
+def tripH (env : Env) (ws : List Wrap) (t : Ty) (v : V) : R V :=
+  let nullable := (peelOpt ws).2
+  match v with
+  | .none => if nullable then .ok .none else .error .typeError
+  | v => do
+    let w ← convertForArrow env t v
+    let x ← arrowRT env (arrowTopH ws t) w
+    match x with
+    | .none => if nullable then .ok .none else .error .typeError
+    | x => deserializeValueH env ws t x
+
+def echoH (env : Env) (ws : List Wrap) (t : Ty) (v : V) : R V := do
+  let x ← tripH env ws t v
+  tripH env ws t x
+
+/-- the layers are: at most one Optional on the outside, at most one Annotated inside it -/
+def regular (ws : List Wrap) : Bool := peelAnn (peelOpt ws).1 == []
+
+/-- the resolved annotation of a regular hint -/
+def resolved (ws : List Wrap) (t : Ty) : Ty := if (peelOpt ws).2 then .opt t else t
+
 structure Param where
   name : List Char
   ty : Ty
